@@ -62,6 +62,10 @@ def setup(E):
                  requires=[DISTINCT("s"), INDOM("s"), "forall(lambda u: implies(u in graph, u in s), Vtx)"],
                  ensures=["len(s) == len(graph)"],
                  note="a duplicate-free sequence of keys containing every key has the length of the dict", props=["C19"]))
+    add(Contract("lemma_card_bound", kind="assumed", params={"graph": G, "s": "Seq[Vtx]"},
+                 requires=[DISTINCT("s"), INDOM("s")],
+                 ensures=["len(s) <= len(graph)"],
+                 note="pigeonhole: a duplicate-free sequence of keys is not longer than the dict has keys", props=["C19"]))
     add(Contract("collections:deque", kind="assumed", params={"iterable": G}, returns="Seq[Vtx]",
                  ensures=[DISTINCT("result"), "forall(lambda i: implies(0 <= i and i < len(result), result[i] in iterable), Int)",
                           "forall(lambda u: implies(u in iterable, u in result), Vtx)"],
@@ -126,7 +130,8 @@ def setup(E):
                 ("starts-are-untouched", "forall(lambda v: (v in starts) == ((v in graph) and indeg[v] == 0), Vtx)"),
                 ("E0-empty", "forall(lambda x: not (x in E0), Vtx)"), ("result-empty", "len(result) == 0"),
             ]),
-            2: LoopSpec(header="while starts", invariants=RES + [
+            2: LoopSpec(header="while starts", decreases="len(graph) - len(result)", before=["lemma_card_bound(graph, result)"], invariants=RES + [
+                ("result-not-longer-than-graph", "len(result) <= len(graph)"),
                 ("indeg-is-remaining", "forall(lambda v: implies(v in graph, indeg[v] == rem(graph, R, v)), Vtx)"),
                 STARTS,
             ]),
@@ -140,7 +145,8 @@ def setup(E):
         after={"for succ in succs": ["D = D | {P_key(k)}"],
                "node_from = starts.popleft()": ["assert (node_from in graph) and not (node_from in R) and rem(graph, R, node_from) == 0 and not (node_from in starts)",
                                                 "assert forall(lambda u: implies((u in graph) and (node_from in graph[u]), u in result), Vtx)"],
-               "result.append(node_from)": ["R0 = R", "R = R | {node_from}"]},
+               "result.append(node_from)": ["R0 = R", "R = R | {node_from}"],
+               "for node_to in graph[node_from]": ["lemma_card_bound(graph, result)"]},
         at={"if len(result) == len(graph)": [
             "lemma_card_full(graph, result) if len(result) == len(graph) else None",
             "lemma_stuck_blocks_every_order(graph, R, pi, len(pi)) if (len(result) != len(graph) and is_order(graph, pi)) else None",
@@ -170,7 +176,7 @@ def _standins(E):
         top = 3 if tier != "thorough" else 4
         evals = 0
         viol = []
-        lemmas = [E.registry.contracts[n] for n in ("lemma_card_full", "lemma_card_cover")]
+        lemmas = [E.registry.contracts[n] for n in ("lemma_card_full", "lemma_card_cover", "lemma_card_bound")]
         dq = E.registry.contracts["collections:deque"]
         for n in range(0, top + 1):
             verts = [f"v{i}" for i in range(n)]
